@@ -599,8 +599,19 @@ class SVG:
         self._resolve_use(clip_path_el)
 
         transform = _element_transform(clip_path_el, transform)
+        # clip-rule is inherited: children without their own use the value set on
+        # the clipPath element or one of its ancestors
+        inherited = {}
+        ancestor = clip_path_el
+        while ancestor is not None:
+            if "clip-rule" in ancestor.attrib:
+                inherited["clip-rule"] = ancestor.attrib["clip-rule"]
+                break
+            ancestor = ancestor.getparent()
         clip_paths = [
-            from_element(e).apply_transform(_element_transform(e, transform))
+            from_element(e, **inherited).apply_transform(
+                _element_transform(e, transform)
+            )
             for e in clip_path_el
         ]
 
